@@ -488,4 +488,347 @@ theorem linv_getUpdates {s : State} (hi : LInv (acc s)) (w : Nat) : LInv (acc (g
         exact hi.wkind w .mid (Or.inl rfl) hold
     · exact hi
 
+-- ------------------------------------------------------------------ one mailbox message
+theorem acc_clearPubWait (s : State) (p : Peer) : acc (clearPubWait s p) = acc s := rfl
+
+theorem acc_pop_mail (s : State) (rest : List Msg) (n : Nat) :
+    acc { s with mailbox := rest, handled := n } =
+      { acc s with starts := starts rest, fins := fins rest, news := newIds rest } := rfl
+
+/-- popping a message that is neither `new` nor StartTask nor FinishTask leaves `acc` alone -/
+theorem acc_pop_other {s : State} {m : Msg} {rest : List Msg} (hm : s.mailbox = m :: rest)
+    (h1 : isNewMsg m = false) (h2 : ∀ w, m ≠ .startTask w) (h3 : ∀ w e, m ≠ .finishTask w e) :
+    acc { s with mailbox := rest, handled := s.handled + 1 } = acc s := by
+  refine acc_of_li_pi (li_eq rfl rfl rfl ?_ ?_ rfl) (pi_pop_other s m rest hm h1)
+  · show starts rest = starts s.mailbox
+    rw [hm]
+    cases m <;> first | rfl | exact absurd rfl (h2 _)
+  · show fins rest = fins s.mailbox
+    rw [hm]
+    cases m <;> first | rfl | exact absurd rfl (h3 _ _)
+
+theorem hi_handle {s : State} {m : Msg} {rest : List Msg} (hi : LInv (acc s)) (hp : s.park = none)
+    (hm : s.mailbox = m :: rest) :
+    LInv (acc (handle { s with mailbox := rest, handled := s.handled + 1 } m)) ∧
+    PU (handle { s with mailbox := rest, handled := s.handled + 1 } m) := by
+  have hp0 : ({ s with mailbox := rest, handled := s.handled + 1 } : State).park = none := hp
+  cases m with
+  | processRequests p r =>
+    show LInv (acc (if foreign _ p r.id = true then _ else processRequest _ p r)) ∧
+      PU (if foreign _ p r.id = true then _ else processRequest _ p r)
+    cases r with
+    | new id cfg =>
+      have hn : (acc s).news = (p, id) :: newIds rest := by
+        show newIds s.mailbox = _
+        rw [hm]; rfl
+      have h0 : acc { s with mailbox := rest, handled := s.handled + 1 } = { acc s with news := newIds rest } := by
+        rw [acc_pop_mail]
+        have e1 : starts rest = (acc s).starts := by show _ = starts s.mailbox; rw [hm]; rfl
+        have e2 : fins rest = (acc s).fins := by show _ = fins s.mailbox; rw [hm]; rfl
+        rw [e1, e2]
+      split
+      · refine ⟨?_, pu_of_none hp0⟩
+        rw [h0]; exact hi.dropNews _ _ hn
+      · exact hi_newRequest hi hn h0 hp0 cfg
+    | cancel id =>
+      have h0 := acc_pop_other hm rfl (by intros; simp) (by intros; simp)
+      have hi0 : LInv (acc { s with mailbox := rest, handled := s.handled + 1 }) := by rw [h0]; exact hi
+      split
+      · exact ⟨hi0, pu_of_none hp0⟩
+      · exact ⟨linv_abortRequest hi0 hp0 id .ctxCancel, pu_of_none (park_abortRequest hp0 id .ctxCancel)⟩
+    | update id plan =>
+      have h0 := acc_pop_other hm rfl (by intros; simp) (by intros; simp)
+      have hi0 : LInv (acc { s with mailbox := rest, handled := s.handled + 1 }) := by rw [h0]; exact hi
+      split
+      · exact ⟨hi0, pu_of_none hp0⟩
+      · exact hi_processUpdate hi0 hp0 id plan
+  | api c =>
+    have h0 := acc_pop_other (m := .api c) hm rfl (by intros; simp) (by intros; simp)
+    have hi0 : LInv (acc { s with mailbox := rest, handled := s.handled + 1 }) := by rw [h0]; exact hi
+    cases c with
+    | pause id =>
+      show LInv (acc (emit (pauseRequest _ id).1 _)) ∧ PU (emit (pauseRequest _ id).1 _)
+      refine ⟨?_, pu_of_none ?_⟩
+      · rw [acc_emit, acc_pauseRequest]; exact hi0
+      · show (pauseRequest _ id).1.park = none
+        rw [park_pauseRequest]; exact hp0
+    | unpause id ext =>
+      have := hi_unpauseRequest hi0 hp0 id ext
+      show LInv (acc (if (unpauseRequest _ id ext).2.2 = true then (unpauseRequest _ id ext).1
+        else emit (unpauseRequest _ id ext).1 _)) ∧ PU (if (unpauseRequest _ id ext).2.2 = true then
+          (unpauseRequest _ id ext).1 else emit (unpauseRequest _ id ext).1 _)
+      split
+      · exact this
+      · exact this
+    | cancel id =>
+      show LInv (acc (emit (abortRequest _ id .cancelCmd).1 _)) ∧ PU (emit (abortRequest _ id .cancelCmd).1 _)
+      exact ⟨linv_abortRequest hi0 hp0 id .cancelCmd, pu_of_none (park_abortRequest hp0 id .cancelCmd)⟩
+    | update id ext =>
+      have := hi_updateRequest hi0 hp0 id ext
+      show LInv (acc (if (updateRequest _ id ext).2.2 = true then (updateRequest _ id ext).1
+        else emit (updateRequest _ id ext).1 _)) ∧ PU (if (updateRequest _ id ext).2.2 = true then
+          (updateRequest _ id ext).1 else emit (updateRequest _ id ext).1 _)
+      split
+      · exact this
+      · exact this
+  | startTask w =>
+    have hs : (acc s).starts = w :: starts rest := by
+      show starts s.mailbox = _
+      rw [hm]; rfl
+    have h0 : acc { s with mailbox := rest, handled := s.handled + 1 } = { acc s with starts := starts rest } := by
+      rw [acc_pop_mail]
+      have e1 : newIds rest = (acc s).news := by show _ = newIds s.mailbox; rw [hm]; rfl
+      have e2 : fins rest = (acc s).fins := by show _ = fins s.mailbox; rw [hm]; rfl
+      rw [e1, e2]
+    refine ⟨linv_startTask hi hs h0 hp0, pu_of_none ?_⟩
+    exact pcore_none_of_pi_eq (pi_startTask _ w) hp0
+  | getUpdates w =>
+    have h0 := acc_pop_other (m := .getUpdates w) hm rfl (by intros; simp) (by intros; simp)
+    have hi0 : LInv (acc { s with mailbox := rest, handled := s.handled + 1 }) := by rw [h0]; exact hi
+    exact ⟨linv_getUpdates hi0 w, pu_of_none (pcore_none_of_pi_eq (pi_getUpdates _ w) hp0)⟩
+  | finishTask w err =>
+    have hf : (acc s).fins = w :: fins rest := by
+      show fins s.mailbox = _
+      rw [hm]; rfl
+    have h0 : acc { s with mailbox := rest, handled := s.handled + 1 } = { acc s with fins := fins rest } := by
+      rw [acc_pop_mail]
+      have e1 : newIds rest = (acc s).news := by show _ = newIds s.mailbox; rw [hm]; rfl
+      have e2 : starts rest = (acc s).starts := by show _ = starts s.mailbox; rw [hm]; rfl
+      rw [e1, e2]
+    refine ⟨linv_finishTask hi hf h0 hp0 err, pu_of_none ?_⟩
+    exact park_none_of_tos (tos_finishTask _ w err) hp0
+  | closeNetErr id pub =>
+    have h0 := acc_pop_other (m := .closeNetErr id pub) hm rfl (by intros; simp) (by intros; simp)
+    have hi0 : LInv (acc { s with mailbox := rest, handled := s.handled + 1 }) := by rw [h0]; exact hi
+    show LInv (acc (clearPubWait (abortRequest _ id .network).1 pub)) ∧ PU (clearPubWait (abortRequest _ id .network).1 pub)
+    exact ⟨linv_abortRequest hi0 hp0 id .network, pu_of_none (park_abortRequest hp0 id .network)⟩
+  | terminate id pub =>
+    have h0 := acc_pop_other (m := .terminate id pub) hm rfl (by intros; simp) (by intros; simp)
+    have hi0 : LInv (acc { s with mailbox := rest, handled := s.handled + 1 }) := by rw [h0]; exact hi
+    show LInv (acc (clearPubWait (terminate _ id) pub)) ∧ PU (clearPubWait (terminate _ id) pub)
+    refine ⟨linv_terminate hi0 hp0 id, pu_of_none ?_⟩
+    show (terminate _ id).park = none
+    rw [park_terminate]; exact hp0
+
+-- ------------------------------------------------------------------ the parked manager continues
+theorem hi_resumeMgr {s : State} {pk : MgrPark} (hi : LInv (acc s)) (hpu : PU s) (hpk : s.park = some pk) :
+    LInv (acc (resumeMgr s pk)) ∧ PU (resumeMgr s pk) := by
+  have h1 := acc_unpark_buildNow s pk.peer pk.id pk.ops
+  have hp1 : (buildNow { s with park := none } pk.peer pk.id pk.ops).park = none :=
+    pcore_none_of_pi_eq (pi_buildNow _ _ _ _) (s := { s with park := none }) rfl
+  unfold resumeMgr
+  simp only
+  cases hc : pk.cont with
+  | newReq p id cfg =>
+    simp only
+    have hpn : (acc s).pnew = some (p, id) := by simp [acc, hpk, parkNew, hc]
+    have hun : (acc s).punp = none := by simp [acc, hpk, parkUnp, hc]
+    obtain ⟨hcl, hnn⟩ := hi.pnewClean _ hpn
+    have hi1 : LInv (acc (buildNow { s with park := none } pk.peer pk.id pk.ops)) := by
+      rw [h1]
+      have := hi.clearPnew
+      rw [hun] at this
+      exact this
+    refine ⟨linv_newReqFinish hi1 hp1 p id cfg ?_ ?_, pu_of_none (park_newReqFinish' hp1 p id cfg)⟩
+    · rw [h1]; exact hcl
+    · rw [h1]; exact hnn
+  | procUpdate id plan =>
+    simp only
+    have hpn : (acc s).pnew = none := by simp [acc, hpk, parkNew, hc]
+    have hun : (acc s).punp = none := by simp [acc, hpk, parkUnp, hc]
+    have e : acc (buildNow { s with park := none } pk.peer pk.id pk.ops) = acc s := by
+      rw [h1]
+      cases hx : acc s with
+      | mk a b c d e f g h i => rw [hx] at hpn hun; simp only at hpn hun; subst hpn; subst hun; rfl
+    obtain ⟨q, t, he⟩ := hpu id plan pk.peer pk.id pk.ops (by simp [parkCore, hpk, hc])
+    refine ⟨linv_procUpdateFinish (by rw [e]; exact hi) hp1 id plan ⟨q, t, ?_⟩,
+      pu_of_none (park_procUpdateFinish hp1 id plan)⟩
+    exact (congrFun (congrArg Acc.ent e) id).trans he
+  | unpause id ext =>
+    simp only
+    have hun : (acc s).punp = some id := by simp [acc, hpk, parkUnp, hc]
+    obtain ⟨⟨p0, t0, he0, hnp, hnl⟩, hpn⟩ := hi.punpOK id hun
+    obtain ⟨p, t, he, hpush⟩ := hi.unparkPush id hun
+    have hpp : p0 = p := by rw [he0] at he; cases he; rfl
+    subst hpp
+    have he1 : entOf (buildNow { s with park := none } pk.peer pk.id pk.ops) id = some (p0, .queued, t) := by
+      have := congrFun (congrArg Acc.ent h1) id
+      exact this.trans he
+    obtain ⟨r, hl, hr⟩ := lookup_of_entOf he1
+    have hrp : r.peer = p0 := (congrArg Prod.fst hr).symm
+    have hna : id ∉ (acc s).act p0 := fun hm => by
+      obtain ⟨i, hli⟩ := (hi.actLive p0 id).1 hm
+      exact hnl i hli
+    constructor
+    · rw [acc_emit]
+      unfold unpauseFinish
+      rw [hl]
+      simp only
+      rw [hrp, acc_pushTask, h1, if_pos ⟨hna, hnp⟩]
+      rw [hpn] at hpush
+      exact hpush
+    · apply pu_of_none
+      show (unpauseFinish _ id).park = none
+      exact park_unpauseFinish hp1 id
+  | update id ext =>
+    simp only
+    have hpn : (acc s).pnew = none := by simp [acc, hpk, parkNew, hc]
+    have hun : (acc s).punp = none := by simp [acc, hpk, parkUnp, hc]
+    have e : acc (buildNow { s with park := none } pk.peer pk.id pk.ops) = acc s := by
+      rw [h1]
+      cases hx : acc s with
+      | mk a b c d e f g h i => rw [hx] at hpn hun; simp only at hpn hun; subst hpn; subst hun; rfl
+    exact ⟨by rw [acc_emit, e]; exact hi, pu_of_none hp1⟩
+
+theorem hi_mgrStep {s s' : State} (hi : LInv (acc s)) (hpu : PU s) (h : mgrStep s = some s') :
+    LInv (acc s') ∧ PU s' := by
+  unfold mgrStep at h
+  split at h
+  · rename_i pk hpk
+    split at h
+    · cases h; exact hi_resumeMgr hi hpu hpk
+    · cases h
+  · rename_i hpk
+    split at h
+    · cases h
+    · rename_i m rest hm
+      cases h
+      exact hi_handle hi hpk hm
+
+-- ------------------------------------------------------------------ all steps
+/-- the request id is fully drained at the responder: no response with this id, no topic with it in
+    any peer's task queue (pending or active), no task worker still busy with it, no `new` request
+    with it waiting in the mailbox or parked inside `newRequest` -/
+def Drained (s : State) (id : Id) : Prop :=
+  (acc s).Clean id ∧ id ∉ (acc s).news.map Prod.snd ∧ ∀ k, (acc s).pnew = some k → k.2 ≠ id
+
+/-- `new` requests only carry drained ids -/
+def DrainStep (s : State) : Action → Prop
+  | .recv _ (.new id _) => Drained s id
+  | _ => True
+
+inductive ReachableDrained (c : Cfg) : State → Prop
+  | init : ReachableDrained c (init c)
+  | step {s s' a} : ReachableDrained c s → DrainStep s a → step s a = some s' → ReachableDrained c s'
+
+theorem pu_of_eq {s s' : State} (h1 : tcore s' = tcore s) (h2 : parkCore s'.park = parkCore s.park) (hpu : PU s) :
+    PU s' := by
+  intro id plan p i ops hc
+  rw [h2] at hc
+  obtain ⟨q, t, he⟩ := hpu id plan p i ops hc
+  exact ⟨q, t, by rw [entOf_tcore, h1, ← entOf_tcore]; exact he⟩
+
+theorem pu_of_li_pi {s s' : State} (h1 : li s' = li s) (h2 : pi s' = pi s) (hpu : PU s) : PU s' :=
+  pu_of_eq (congrArg Li.tbl h1) (congrArg Pi.pcore h2) hpu
+
+theorem hi_step {s s' : State} {a : Action} (hi : LInv (acc s)) (hpu : PU s) (hd : DrainStep s a)
+    (h : step s a = some s') : LInv (acc s') ∧ PU s' := by
+  cases a with
+  | recv p r =>
+    simp only [step, Option.some.injEq] at h
+    subst h
+    refine ⟨?_, pu_of_eq rfl rfl hpu⟩
+    cases r with
+    | new id cfg =>
+      have : acc (sendMsg { s with seenIds := s.seenIds ++ [id] } (Msg.processRequests p (ReqMsg.new id cfg))) =
+          { acc s with news := (acc s).news ++ [(p, id)] } := by
+        apply acc_eq
+        · intro _; rfl
+        · intro _; rfl
+        · intro _; rfl
+        · rfl
+        · exact starts_append _ _ (by intros; simp)
+        · exact fins_append _ _ (by intros; simp)
+        · simp [newIds, sendMsg, acc, List.filterMap_append]
+        · rfl
+        · rfl
+      rw [this]
+      exact hi.recvNew p id hd.1 hd.2.1 hd.2.2
+    | cancel id =>
+      rw [acc_of_li_pi (li_recv s p _ _) (pi_mail _ _ rfl)]; exact hi
+    | update id plan =>
+      rw [acc_of_li_pi (li_recv s p _ _) (pi_mail _ _ rfl)]; exact hi
+  | api c =>
+    simp only [step, Option.some.injEq] at h
+    subst h
+    refine ⟨?_, pu_of_eq rfl rfl hpu⟩
+    rw [acc_of_li_pi (li_sendMsg s _ (by intros; simp) (by intros; simp)) (pi_mail _ _ rfl)]; exact hi
+  | mgr => exact hi_mgrStep hi hpu h
+  | pop p id =>
+    have h' : popTask s p id = some s' := h
+    obtain ⟨h1, h2⟩ := acc_popTask h'
+    refine ⟨by rw [h1]; exact hi.pop p id h2, ?_⟩
+    refine pu_of_eq ?_ (congrArg Pi.pcore (pi_popTask h')) hpu
+    unfold popTask at h'
+    simp only at h'
+    split at h'
+    · cases h'; rfl
+    · cases h'
+  | reap p =>
+    have h' : reap s p = some s' := h
+    refine ⟨by rw [acc_reap h']; exact hi, ?_⟩
+    refine pu_of_eq ?_ (congrArg Pi.pcore (pi_reap h')) hpu
+    unfold reap at h'
+    split at h'
+    · split at h'
+      · cases h'; rfl
+      · cases h'
+    · cases h'
+  | wstep w pick =>
+    have h' : wstep s w pick = some s' := h
+    refine ⟨linv_wstep hi h', ?_⟩
+    refine pu_of_eq ?_ (congrArg Pi.pcore (pi_wstep h')) hpu
+    rcases (wl_wstep h').1 with e | e | e <;> exact congrArg Li.tbl e
+  | extract p =>
+    have h' : extract s p = some s' := h
+    exact ⟨by rw [acc_of_li_pi (li_extract h') (pi_extract h')]; exact hi, pu_of_li_pi (li_extract h') (pi_extract h') hpu⟩
+  | net p ok =>
+    have h' : netResolve s p ok = some s' := h
+    exact ⟨by rw [acc_of_li_pi (li_netResolve h') (pi_netResolve h')]; exact hi,
+      pu_of_li_pi (li_netResolve h') (pi_netResolve h') hpu⟩
+  | pub p =>
+    have h' : pubStep s p = some s' := h
+    exact ⟨by rw [acc_of_li_pi (li_pubStep h') (pi_pubStep h')]; exact hi,
+      pu_of_li_pi (li_pubStep h') (pi_pubStep h') hpu⟩
+  | primer p =>
+    simp only [step, Option.some.injEq] at h
+    subst h
+    exact ⟨by rw [acc_of_li_pi (li_primer s p) (pi_primer s p)]; exact hi,
+      pu_of_li_pi (li_primer s p) (pi_primer s p) hpu⟩
+  | thaw =>
+    simp only [step, Option.some.injEq] at h
+    subst h
+    exact ⟨by rw [acc_of_li_pi (li_thawAll s) (pi_thawAll s)]; exact hi,
+      pu_of_li_pi (li_thawAll s) (pi_thawAll s) hpu⟩
+
+theorem linv_init (c : Cfg) : LInv (acc (init c)) := by
+  have hl : ∀ i p id, ¬ (acc (init c)).liveW i p id := by
+    intro i p id ⟨k, hk, _⟩
+    simp [acc, init, wcore] at hk
+  have hk : ∀ i, (acc (init c)).kindAt i = none := by
+    intro i; simp [Acc.kindAt, acc, init, wcore]
+  refine ⟨?_, ?_, ?_, ?_, ?_, ?_, ?_, ?_, ?_, ?_, ?_, ?_, ?_, ?_⟩
+  · intro p id h; simp [acc, init, pendOf, getQ] at h
+  · intro p id
+    constructor
+    · intro h; simp [acc, init, actOf, getQ] at h
+    · rintro ⟨i, h⟩; exact absurd h (hl i p id)
+  · intro i j p id h; exact absurd h (hl i p id)
+  · intro i; rw [hk]; simp [acc, init, starts]
+  · simp [acc, init, starts]
+  · intro i; rw [hk]; simp [acc, init, fins]
+  · simp [acc, init, fins]
+  · intro i p id h; exact absurd h (hl i p id)
+  · intro p id h; simp [acc, init, pendOf, getQ] at h
+  · intro id p st t h; simp [acc, init, entOf, lookup] at h
+  · intro k h; simp [acc, init, newIds] at h
+  · simp [acc, init, newIds]
+  · intro k h; simp [acc, init, parkNew] at h
+  · intro id h; simp [acc, init, parkUnp] at h
+
+theorem linv_reachable {c : Cfg} {s : State} (h : ReachableDrained c s) : LInv (acc s) ∧ PU s := by
+  induction h with
+  | init => exact ⟨linv_init c, pu_of_none rfl⟩
+  | step _ hd hs ih => exact hi_step ih.1 ih.2 hd hs
+
 end GS.RespLife
